@@ -31,6 +31,7 @@ def run_check(prop, tier, *, lean_module, cases, execute, compare, oracle, class
   distinct = set()
   hist = collections.Counter()
   known_hits = collections.Counter()
+  model_stats = collections.Counter()
   samples = []
   r = common.rng(prop, tier)
 
@@ -47,6 +48,12 @@ def run_check(prop, tier, *, lean_module, cases, execute, compare, oracle, class
     if count:
       n += 1
       hist[tag] += 1
+      if model is not None:
+        model_stats['compared_with_model'] += 1
+      elif isinstance(real, dict) and 'm_unsupported' in real:
+        model_stats['outside_modelled_subset'] += 1
+      else:
+        model_stats['oracle_only'] += 1
       if nontrivial:
         k = nontrivial(case, real)
         if k is not None:
@@ -127,6 +134,7 @@ def run_check(prop, tier, *, lean_module, cases, execute, compare, oracle, class
       'disagreements_checked': len(disagreements) + len(failures),
       'explanation': 'see rule; Lean obligations are re-checked and audited on every run',
       'known_finding_hits': dict(known_hits),
+      'model_correspondence': dict(model_stats),
   }
   if extra_coverage:
     cov.update(extra_coverage() if callable(extra_coverage) else extra_coverage)
